@@ -606,13 +606,13 @@ func (x *TopicsIndex) scanSubscribers(topic string, d int, n *particle, subs *Su
 				x.scanSubscribers(topic, d+1, particle, subs)
 			} else {
 				x.gatherSubscriptions(topic, particle, subs)
-				x.gatherSharedSubscriptions(particle, subs)
-				x.gatherInlineSubscriptions(particle, subs)
+				x.gatherSharedSubscriptions(topic, particle, subs)
+				x.gatherInlineSubscriptions(topic, particle, subs)
 
 				if wild := particle.particles.get("#"); wild != nil {
 					x.gatherSubscriptions(topic, wild, subs) // also match any subs where filter/# is filter as per 4.7.1.2
-					x.gatherSharedSubscriptions(wild, subs)
-					x.gatherInlineSubscriptions(wild, subs)
+					x.gatherSharedSubscriptions(topic, wild, subs)
+					x.gatherInlineSubscriptions(topic, wild, subs)
 				}
 			}
 		}
@@ -620,8 +620,8 @@ func (x *TopicsIndex) scanSubscribers(topic string, d int, n *particle, subs *Su
 
 	if particle := n.particles.get("#"); particle != nil {
 		x.gatherSubscriptions(topic, particle, subs)
-		x.gatherSharedSubscriptions(particle, subs)
-		x.gatherInlineSubscriptions(particle, subs)
+		x.gatherSharedSubscriptions(topic, particle, subs)
+		x.gatherInlineSubscriptions(topic, particle, subs)
 	}
 
 	return subs
@@ -648,13 +648,16 @@ func (x *TopicsIndex) gatherSubscriptions(topic string, particle *particle, subs
 }
 
 // gatherSharedSubscriptions gathers all shared subscriptions for a particle.
-func (x *TopicsIndex) gatherSharedSubscriptions(particle *particle, subs *Subscribers) {
+func (x *TopicsIndex) gatherSharedSubscriptions(topic string, particle *particle, subs *Subscribers) {
 	if subs.Shared == nil {
 		subs.Shared = map[string]map[string]packets.Subscription{}
 	}
 
 	for _, shares := range particle.shared.GetAll() {
 		for client, sub := range shares {
+			if first, _ := isolateParticle(sub.Filter, 2); topic[0] == '$' && (first == "+" || first == "#") { // [MQTT-4.7.2-1] applies to the filter following $share/<group>/
+				continue
+			}
 			if _, ok := subs.Shared[sub.Filter]; !ok {
 				subs.Shared[sub.Filter] = map[string]packets.Subscription{}
 			}
@@ -665,12 +668,15 @@ func (x *TopicsIndex) gatherSharedSubscriptions(particle *particle, subs *Subscr
 }
 
 // gatherSharedSubscriptions gathers all inline subscriptions for a particle.
-func (x *TopicsIndex) gatherInlineSubscriptions(particle *particle, subs *Subscribers) {
+func (x *TopicsIndex) gatherInlineSubscriptions(topic string, particle *particle, subs *Subscribers) {
 	if subs.InlineSubscriptions == nil {
 		subs.InlineSubscriptions = map[int]InlineSubscription{}
 	}
 
 	for id, inline := range particle.inlineSubscriptions.GetAll() {
+		if len(inline.Filter) > 0 && topic[0] == '$' && (inline.Filter[0] == '+' || inline.Filter[0] == '#') { // [MQTT-4.7.2-1]
+			continue
+		}
 		subs.InlineSubscriptions[id] = inline
 	}
 }
